@@ -20,6 +20,11 @@ comparison callback is a consistent ordering.  Decided:
                rational identities with the locals inlined); the extensive set is exactly the set cxxSolution::multiply scales,
                and the element totals / isotopes are added and scaled by their extensive helpers.  A member moved to the other
                class, or an extensive term without the factor, makes scaling or splitting a mix change the result.
+  C15.scale    "scaling the water mass and all extensive amounts by a common factor": Phreeqc::calc_dens turns species amounts into
+               the solution density, mass and volume.  With the extensive inputs (species moles, water mass) scaled by 2 - decided
+               as an exact rational identity, accumulators classified from their own update statements - the density is unchanged
+               (degree 0) and the solution mass and volume double (degree 1).  A term that loses its division by the water mass
+               makes the density depend on how much solution there is.
 Not decided: unit conversion, density iteration, extensive/intensive scaling, mixing order, repeated definitions (all need the
 numerical result of two runs).
 """
@@ -220,8 +225,87 @@ def addsol_rule(P, R):
             R.violation("C15.addsol", "container:%s" % a_, "element totals / isotopes are not both added (%s) and scaled (%s) through their extensive helpers" % (a_, m_), line=fa["line"], **where)
 
 
+def scale_rule(P, R):
+    from .. import ratfun as RF
+    from fractions import Fraction
+    R.rule("C15.scale", "calc_dens: density is intensive (degree 0), solution mass and volume are extensive (degree 1) under scaling of amounts and water mass", minimum=5)
+    f = P.one("Phreeqc::calc_dens")
+    where = dict(file=f["file"], function=f["q"])
+    EXT = {"moles": 1, "mass_water_aq_x": 1}       # base extensive quantities (species/unknown amounts, kg water)
+    deg = {}
+
+    def conv(n):
+        n = T.strip_casts(n)
+        if n[0] == "Lit":
+            return RF.Rat.const(Fraction(str(n[3]).rstrip("fFlL")))
+        if n[0] == "Member":
+            return RF.Rat.sym(n[2].split("::")[-1])
+        if n[0] == "Ref" and n[2] in ("local", "param"):
+            return RF.Rat.sym(n[3])
+        if n[0] == "Index":
+            return RF.Rat.sym(T.text(n).replace(" ", ""))
+        if n[0] == "Bin" and n[2] in ("+", "-", "*", "/"):
+            a, b = conv(n[3]), conv(n[4])
+            return a + b if n[2] == "+" else a - b if n[2] == "-" else a * b if n[2] == "*" else a / b
+        if n[0] == "Un" and n[2] == "-":
+            return -conv(n[3])
+        raise RF.NotRational(T.text(n)[:40])
+
+    def degree(r):
+        """k such that r(2*ext) == 2^k r, for k in 0, 1, -1; None otherwise"""
+        sc = r
+        for nm, d in list(EXT.items()) + list(deg.items()):
+            if d and nm in r.symbols():
+                sc = sc.scaled(nm, 2 ** d)
+        for k in (0, 1, -1, 2):
+            if sc.same(r * RF.Rat.const(Fraction(2) ** k)):
+                return k
+        return None
+    # accumulators: X += <expr> inside the species loop
+    for x in T.walk(f["body"]):
+        if x[0] == "Bin" and x[2] == "+=" and T.strip_casts(x[3])[0] in ("Member", "Ref"):
+            nm = T.text(x[3]).split(".")[-1]
+            try:
+                d = degree(conv(x[4]))
+            except RF.NotRational:
+                d = None
+            inst = "accumulator:%s" % nm
+            if d is None:
+                R.violation("C15.scale", inst, "`%s += %s` is not homogeneous in the amounts" % (nm, T.text(x[4])[:60]), line=x[1], **where)
+            else:
+                if nm in deg and deg[nm] != d:
+                    R.violation("C15.scale", inst, "%s is accumulated with terms of different degree" % nm, line=x[1], **where)
+                deg[nm] = d
+                R.ok("C15.scale", inst, "degree %d in the amounts" % d)
+    want = {"density_x": 0, "solution_mass_x": 1, "solution_volume_x": 1}
+    seen = set()
+    for x in T.walk(f["body"]):
+        if x[0] == "Bin" and x[2] == "=" and T.strip_casts(x[3])[0] in ("Member", "Ref"):
+            nm = T.text(x[3]).split(".")[-1]
+            if nm not in want:
+                continue
+            try:
+                r = conv(x[4])
+            except RF.NotRational:
+                continue
+            d = degree(r)
+            seen.add(nm)
+            inst = "%s@%d" % (nm, x[1])
+            if d == want[nm]:
+                R.ok("C15.scale", inst, "degree %d" % d)
+                deg[nm] = d
+            else:
+                R.violation("C15.scale", inst, "`%s = %s` has degree %s in the extensive amounts, expected %d: %s" % (nm, T.text(x[4])[:100], d, want[nm],
+                            "the density would depend on the size of the solution" if want[nm] == 0 else "it would not scale with the size of the solution"), line=x[1], **where)
+                deg[nm] = want[nm]
+    for nm in want:
+        if nm not in seen:
+            R.anchor_missing("C15.scale", "calc_dens: assignment of %s not found" % nm)
+
+
 def run(P, R, tier):
     addsol_rule(P, R)
+    scale_rule(P, R)
     R.undecided += ["unit conversion and density iteration (numerical)", "scaling of extensive amounts, mixing order, repeated definitions (pairs of runs)"]
     R.rule("C15.compare", "every qsort comparison callback applies the same accessor to both operands and returns mirrored signs", minimum=25)
     qs = comparators(P, ("qsort", "sort", "stable_sort"))
